@@ -310,8 +310,18 @@ pub fn check_field_hints(choices: &Vec<u16>) -> Out {
                     _ => ch.u64(),
                 }
             };
-            let a = pickv(&mut ch);
+            let mut a = pickv(&mut ch);
             let b = pickv(&mut ch).max(1);
+            // operand classes a uniformly drawn pair never hits: the dividend is an exact multiple
+            // of the divisor (remainder 0: the hint "q - 1, r + b" then has r = b), or equal to it
+            match ch.pick(5) {
+                0 => {
+                    let k = [1u64, 2, 3, 7, 1 << 16, (1 << 32) - 1, 1 << 32][ch.pick(7)];
+                    a = b.checked_mul(k).unwrap_or(b);
+                }
+                1 => a = b,
+                _ => {}
+            }
             let (q, r) = (a / b, a % b);
             let name = ["div", "mod", "divmod"][ch.pick(3)];
             let sp = |v: u64| vec![v >> 32, v & 0xFFFF_FFFF];
